@@ -9,8 +9,8 @@ vars == <<l, size, vm>>
 TraceInit == l = 1 /\ size = 0 /\ vm = {}
 File == /\ l <= Len(Rec) /\ Rec[l].e = "m_file" /\ size' = Rec[l].size /\ vm' = {} /\ l' = l + 1
 New == /\ l <= Len(Rec) /\ Rec[l].e = "m_new"
-       /\ LET e == Rec[l] r == NewResult(e.exists, e.size) IN
-            /\ e.res = r
+       /\ LET e == Rec[l] r == e.res IN
+            /\ r \in NewResults(e.exists, e.size)
             /\ IF r = "ok"
                THEN /\ e.len * 8 = e.size /\ e.slice_eq = TRUE
                     /\ vm' = vm \cup {<<e.id, PageRound(e.size)>>}
